@@ -24,3 +24,17 @@ def exists_range(lo, hi, pred):
 def is_opaque(x):
     """True for objects that exist only through an interface contract (never for real instances)."""
     return type(x).__name__.startswith('Stub_')
+
+
+# ---- prefix sums / counts over sequences.  Natively plain sums; in proofs an uninterpreted prefix
+# function per (sequence, f) that is unfolded one step at the index it is asked for
+# (pyvc.models.q_sum_prefix / q_count_prefix).  `f` / `pred` must be module-level functions.
+
+def sum_prefix(xs, k, f):
+    """f(xs[0]) + ... + f(xs[k-1])"""
+    return sum(f(xs[j]) for j in range(k))
+
+
+def count_prefix(xs, k, pred):
+    """number of j < k with pred(xs[j])"""
+    return sum(1 for j in range(k) if pred(xs[j]))
